@@ -46,7 +46,7 @@ type session = {
   mutable bset2 : C.bitset;
   mutable dl : C.dlist; mutable labs : int list; mutable lnode_seq : int;
   mutable pool : C.addr list; mutable plive : C.addr list;
-  mutable tree : C.tree; mutable tlive : (int * C.z) list; mutable tnode_seq : int;   (* live nodes: (id, key) in insertion order *)
+  mutable tree : C.tree; mutable tlive : (int * C.z) list; mutable tall : int list; mutable tnode_seq : int;   (* live nodes: (id, key) in insertion order *)
 }
 let isz k = ci (match k with 0 | 1 -> 4 | 2 -> 8 | _ -> 12)
 let sess : session option ref = ref None
@@ -184,7 +184,11 @@ let tree_state ?(agree = true) (s : session) (full : bool) : string =
   let budget = ref (if full || List.length s.tlive <= 12 then 64 else 0) in
   List.iter (fun c -> h := hmix !h (zint (z_of_cz c)); if !budget > 0 then (Buffer.add_string b (zi c ^ ","); decr budget)) shape;
   (* ok = the PROVEN state checker TreeGeneral.tree_state_ok evaluated on the model state (C18_tree_checked_state_semantics) *)
-  Printf.sprintf "n=%d ok=%d sh=%d s=[%s]" (List.length s.tlive) (if C.tree_state_ok s.tree && agree then 1 else 0) !h (Buffer.contents b)
+  (* every node ever handed to the tree, removed ones included: links and colour bit of its heap cell *)
+  let dn = ref 7 in
+  List.iter (fun id -> let nd = C.hget s.tree.C.heap (ci id) in
+    dn := hmix !dn (zint (z_of_cz nd.C.t_left)); dn := hmix !dn (zint (z_of_cz nd.C.t_right)); dn := hmix !dn (if nd.C.t_red then 1 else 0)) s.tall;
+  Printf.sprintf "n=%d ok=%d sh=%d dn=%d s=[%s]" (List.length s.tlive) (if C.tree_state_ok s.tree && agree then 1 else 0) !h !dn (Buffer.contents b)
 
 let tree_cmd (s : session) (t : string list) : string =
   match t with
@@ -200,7 +204,7 @@ let tree_cmd (s : session) (t : string list) : string =
         s.tnode_seq <- id + 1;
         (* the heap model and the proven abstract insertion give the same tree (a theorem: C18_tree_insert_unbounded; re-checked) *)
         let agree = C.insert_agrees s.tree (ci id) k in
-        s.tree <- C.tree_insert s.tree (ci id) k; s.tlive <- s.tlive @ [(id, k)];
+        s.tree <- C.tree_insert s.tree (ci id) k; s.tlive <- s.tlive @ [(id, k)]; s.tall <- s.tall @ [id];
         Printf.sprintf "ins=%d %s" id (tree_state ~agree s false) end
   | "r" :: j :: _ ->
     if s.tlive = [] then "skip" else begin
@@ -339,7 +343,7 @@ let bv_cmd (w : string) (t : string list) : string =
 
 let new_session minb st =
   { arena = C.arena_init (cs minb) (cs st); direct = []; v = Array.make 4 C.vec_empty; h = Array.make 2 C.hash_empty;
-    hlive = Array.make 2 []; hdead = Array.make 2 []; node_seq = 0; tree = C.tree_empty; tlive = []; tnode_seq = 2;
+    hlive = Array.make 2 []; hdead = Array.make 2 []; node_seq = 0; tree = C.tree_empty; tlive = []; tall = []; tnode_seq = 2;
     bset = C.bitset_empty; bset2 = C.bitset_empty; dl = C.dlist_empty; labs = []; lnode_seq = 1; pool = []; plive = [] }
 
 let () =
@@ -407,7 +411,7 @@ let () =
            | None -> "AG e=1 emb=0 p=null " ^ arena_dump a')
         | "AZ" :: hard :: _, Some s ->
           s.arena <- C.arena_reset s.arena (hard <> "0");
-          s.tree <- C.tree_empty; s.tlive <- []; s.dl <- C.dlist_empty; s.labs <- []; s.pool <- []; s.plive <- []; s.bset <- C.bitset_empty; s.bset2 <- C.bitset_empty;
+          s.tree <- C.tree_empty; s.tlive <- []; s.tall <- []; s.dl <- C.dlist_empty; s.labs <- []; s.pool <- []; s.plive <- []; s.bset <- C.bitset_empty; s.bset2 <- C.bitset_empty;
           s.direct <- []; Array.fill s.v 0 4 C.vec_empty; Array.fill s.h 0 2 C.hash_empty; Array.fill s.hlive 0 2 []; Array.fill s.hdead 0 2 [];
           "AZ " ^ arena_dump s.arena
         | "AS" :: _, Some s ->
